@@ -413,6 +413,11 @@ fn used_type_params<'ty, 'out>(
         Type::Tuple(TypeTuple { elems, .. }) => elems
             .iter()
             .for_each(|elem| used_type_params(out, elem, is_type_param)),
+        // `<X as TS>::OptionInnerType`, generated for `#[ts(optional)]` / `#[ts(optional_fields)]`:
+        // the type parameters inside `X` are used as well
+        Type::Path(TypePath {
+            qself: Some(qself), ..
+        }) => used_type_params(out, &qself.ty, is_type_param),
         Type::Path(TypePath { qself: None, path }) => {
             let first = path.segments.first().unwrap();
             if is_type_param(&first.ident) {
